@@ -57,9 +57,13 @@ Section Rt.
     - (* enum *)
       destruct tag; try contradiction.
       assert (H1 : forallb (fun v => match v_det v with VStruct ps => props_ok ps | _ => true end) vs = true).
-      { apply forallb_forall. intros v Hv. rewrite (Hd v Hv). reflexivity. }
+      { apply forallb_forall. intros v Hv. specialize (Hd v Hv). destruct (v_det v); try reflexivity. exact (proj1 Hd). }
       rewrite H1. cbn [andb]. apply forallb_forall. intros c Hc.
-      apply in_flat_map in Hc. destruct Hc as (v & Hv & Hc). rewrite (Hd v Hv) in Hc. destruct Hc.
+      apply in_flat_map in Hc. destruct Hc as (v & Hv & Hc). specialize (Hd v Hv). destruct (v_det v) as [|t|ts|ps].
+      + destruct Hc.
+      + destruct Hc as [<-|[]]. apply idok_in. exact Hd.
+      + apply idok_in. exact (Hd c Hc).
+      + apply in_map_iff in Hc. destruct Hc as (p & <- & Hp). apply idok_in. exact (proj2 Hd p Hp).
     - (* struct *)
       destruct Hd as [Hp Hids]. rewrite Hp. cbn [andb]. apply forallb_forall. intros c Hc.
       apply in_map_iff in Hc. destruct Hc as (p & <- & Hp'). apply idok_in. exact (Hids p Hp').
